@@ -316,6 +316,6 @@ pub fn subs() -> Vec<Box<dyn DynSub>> {
 }
 
 pub fn run(ctx: &Ctx) {
-    ctx.run_prop(&Invert, ctx.n(5_000_000, 50_000_000));
+    ctx.run_prop(&Invert, ctx.n(5_000_000, 200_000_000));
     ctx.run_prop(&Special, ctx.n(100_000, 2_000_000));
 }
